@@ -47,7 +47,7 @@ CLAIMS = {
   ref="DESIGN.md section 0.1, section 5 C15"),
  "C19": dict(
   text="partial: the documented stop rule, for all states: singleStep asks the debugger before a statement exactly when single-stepping is on and the call depth of the statement's frame is below the requested depth (both directions: a call-site assertion and a ghost call history), and hands the statement back untouched when single-stepping is off; applyDebugOp switches single-stepping on with the requested depth for Depth > 0 and off otherwise; the commands ask for depth: step = DebugOpStep, next = current depth + 1, finish = current depth, continue = DebugOpContinue - which is 'any depth / same or shallower / shallower / never'",
-  note="trusted: go/ssa front end, SMT solvers, the assumed contract of Stmt. Not covered: transparency (same results with and without the debugger: two executions), the command table, the initial values of the package variables DebugOpStep / DebugOpContinue, explicit breakpoints, Interp.debug",
+  note="trusted: go/ssa front end, SMT solvers, the assumed contract of Stmt. Not covered: transparency (same results with and without the debugger: two executions), the command table (a package-level map), explicit breakpoints, Interp.debug, Debugger.main",
   ref="DESIGN.md section 0.1, section 5 C19"),
  "C20": dict(
   text="thin: only the third mechanism the property names, 'trivial wrapper removal keeping declaration blocks' (base.unwrapTrivialAst2, behind UnwrapTrivialAst / UnwrapTrivialAstKeepBlocks), for all inputs with a loop invariant: the result is never a parenthesis, an expression statement or a declaration statement wrapper; something that is no wrapper comes back as it is; with blocks kept a block comes back as it is; a block whose only statement is a declaration is never unwrapped",
